@@ -697,7 +697,7 @@ fn dyn_wrap_go_name(trait_name: &str, for_ty: &tast::Ty, method_name: &str) -> S
     ))
 }
 
-fn collect_dyn_requirements(file: &anf::File) -> DynRequirements {
+fn collect_dyn_requirements(goenv: &GlobalGoEnv, file: &anf::File) -> DynRequirements {
     fn collect_ty(req: &mut DynRequirements, ty: &tast::Ty) {
         match ty {
             tast::Ty::TDyn { trait_name } => {
@@ -858,6 +858,25 @@ fn collect_dyn_requirements(file: &anf::File) -> DynRequirements {
         }
         collect_ty(&mut req, &f.ret_ty);
         collect_aexpr(&mut req, &f.body);
+    }
+    // A `dyn Trait` type may occur only inside a type definition that is emitted (the payload of a
+    // variant nobody constructs, a field of a struct nobody builds): the Go declaration of that
+    // definition still names the trait object struct.
+    for (name, def) in goenv.structs() {
+        if struct_def_is_emitted(name, def) {
+            for (_, ty) in &def.fields {
+                collect_ty(&mut req, ty);
+            }
+        }
+    }
+    for (name, def) in goenv.enums() {
+        if enum_def_is_emitted(name, def) {
+            for (_, fields) in &def.variants {
+                for ty in fields {
+                    collect_ty(&mut req, ty);
+                }
+            }
+        }
     }
     req
 }
@@ -2410,7 +2429,7 @@ pub fn go_file(
     }
 
     let file = anf::anf_renamer::rename(file);
-    let dyn_req = collect_dyn_requirements(&file);
+    let dyn_req = collect_dyn_requirements(&goenv, &file);
 
     let mut toplevels = gen_type_definition(&goenv);
     toplevels.extend(gen_dyn_type_definitions(&goenv, &dyn_req));
